@@ -76,6 +76,10 @@ CHECKS = {
    text="Invariants I1..I8 and the kinematic operators De / Deta / C: the real HyperElasticState methods run on symbolic tensors and are differentiated exactly (Kelvin-Mandel gradient and Hessian, sym(F' grad v), C(QF) = C(F)). Laws (Neo-Hookean, Mooney-Rivlin, Ciarlet-Geymonat, Saint-Venant-Kirchhoff, Holzapfel-Ogden): the extracted Compute_W / dWde / d2Wde run on formal invariants and formal gradient / Hessian atoms and their coefficients are compared with sympy derivatives of the returned energy for all invariant values and all parameters; a frame scan shows the laws read C only, so stress = dW/dE, tangent = dS/dE, objectivity and the stress-free reference hold for every deformation. Element operators (pointwise PK2, Gonzalez discrete gradient, strain-path quadrature, active stress, Kelvin-Voigt, follower pressure, penalty contact): the real code runs on exact rationals along u0 + t d and K_e d == dR_e/dt is decided as a polynomial / rational identity in t; the one-step energy balance R.(u_n+1 - u_n) == integral of W_n+1 - W_n likewise. Native run-time contracts (bounded) repeat this with every law, the jax AutoDiff law with a user energy, and free motions over many steps.",
    note="Operator obligations are instances (seeded rational state per element type, Saint-Venant-Kirchhoff so that the field is rational): bounded. Energy conservation over many steps is native and bounded; per step it follows from C18.energy.* and C05. sympy simplification is trusted. Holzapfel-Ogden reference needs orthogonal fibres.",
    technique="contract-based verification: symbolic execution of extracted constitutive code on formal invariants (sympy) + real kinematics / element operators run on exact symbolic values with exact differentiation + AST frame scan + run-time contracts on native runs"),
+ "C19": dict(level="other", design="DESIGN.md 3/C19",
+   text="Purity is an effect contract decided on the AST for every call sequence: no method reachable from Behavior.Integrate stores to self or writes into an argument (only into arrays it allocated), and the simulation's committed state is bound only by __init__ / Save_Iter / Set_Iter and never written in place. The pieces of the local solve are decided symbolically for all arguments and parameters: yield surfaces (von Mises, Hill, Drucker-Prager: phi^2 is the declared quadratic form, N = df/dsig, dNdSig = dN/dsig, on a symbolic stress with radicals by relation), isotropic hardening laws (R = dpsi/dp, dR = R'), Armstrong-Frederick back-stress, Norton / Perzyna rate laws (inverse and its slope). The return mapping is an iterative float solve: admissibility f <= 0, d gamma >= 0, monotone p, traceless plastic strain, sigma:d eps - d psi >= 0, consistent tangent vs Richardson finite differences, sigma_zz = 0, agreement of the spectral and Newton local solvers, the elastic limit, and bit-identical repeated calls are run-time contracts along seeded loading / unloading / reversal / non-proportional strain paths for constructor combinations (19 quick, 90 thorough), plus simulation-level and MaterialPoint runs.",
+   note="Inequalities over all strain paths are bounded (seeded paths, 12 points x 35 steps per configuration). Points whose local solve reports non-convergence leave the experiment (the property ranges over steps that converge). Tangent checked away from the elastic/plastic switch. Swift exponent instantiated.",
+   technique="contract-based verification: AST effect/frame contracts + symbolic execution of extracted / real constitutive pieces (sympy, exact field with radicals) + run-time contracts on native strain paths"),
 }
 NOT_APPLICABLE = {
 }
